@@ -15,8 +15,10 @@ search / oracle:   written from the property text, independent of the model: rea
                    freshly constructed model of the same configuration (1-3 phases, recording on / off /
                    toggled, between solve calls and after completion, strength model coupled), comparing
                    every array of the history object, the current state, the size distributions and the
-                   recorded ones; surrogates on recording stub backends: un-trained getters must make exactly
-                   the same-named backend call and return its value, trained ones must reproduce the backend
+                   recorded ones; surrogates on recording stub backends with 2-3 precipitate phases: un-trained
+                   getters (every getter x every phase x phase left out / positional / keyword, every optional
+                   argument) must make exactly the same-named backend call, hand it the caller's arguments
+                   and return its value; trained ones must reproduce the backend
                    at the training points (linear / log, broadcast or not, scalar and array queries), a
                    surrogate rebuilt from its JSON file must predict the same values.
 """
@@ -62,7 +64,7 @@ class SurBinary:
     """ideal dilute binary A-B; composition dependent diffusivities (so that training is not degenerate)"""
     numElements = 2
     elements = ['A', 'B', 'VA']
-    P = {'B1': (0.25, 60000., 2.0), 'B2': (0.5, 52000., 1.2)}
+    P = {'B1': (0.25, 60000., 2.0), 'B2': (0.5, 52000., 1.2), 'B3': (0.2, 65000., 2.6)}
 
     def __init__(self, phases=('B1', 'B2')):
         self.phases = ['ALPHA'] + list(phases)
@@ -172,6 +174,88 @@ class SurTernary:
     def impingementFactor(self, x, T, precPhase=None, removeCache=False, searchDir=None, **k):
         cur = self.curvatureFactor(x, T, precPhase)
         return None if cur is None else cur.beta
+
+
+def _scaled(res, f):
+    """multiply every array of a result (tuple / namedtuple / array / None) by f"""
+    if res is None:
+        return None
+    if isinstance(res, tuple):
+        vals = [_scaled(v, f) for v in res]
+        return type(res)(*vals) if hasattr(res, '_fields') else tuple(vals)
+    return np.asarray(res, dtype=float) * f
+
+
+def _argfactor(phases, ph, **opt):
+    """a factor that is different for every phase and every value of every optional argument, so that a
+    dropped, defaulted or altered argument changes the value that comes back"""
+    f = 1.0 + 0.37 * phases.index(ph)
+    for k in sorted(opt):
+        v = opt[k]
+        if v is None:
+            continue
+        if isinstance(v, (bool, np.bool_)):
+            f *= (1.0 + 0.11 * (1 + len(k) % 5)) if v else (1.0 - 0.07 * (1 + len(k) % 3))
+        elif isinstance(v, dict):
+            f *= 1.0 + 0.013 * (1 + len(v)) + 0.001 * sum(float(x) for x in v.values())
+        else:
+            f *= 1.0 + 0.05 * float(np.sum(np.asarray(v, dtype=float)))
+    return f
+
+
+class PassBinary(SurBinary):
+    """binary backend for the un-trained pass-through: 2-3 precipitate phases, the signatures of
+    BinaryThermodynamics, every argument (phase, removeCache, ...) changes the value"""
+    def __init__(self, nprec=3):
+        SurBinary.__init__(self, ('B1', 'B2', 'B3')[:nprec])
+
+    def getDrivingForce(self, x, T, precPhase=None, removeCache=False, local_phase_sampling_conditions=None):
+        ph = self.phases[1] if precPhase is None else precPhase
+        return _scaled(SurBinary.getDrivingForce(self, x, T, ph), _argfactor(self.phases, ph, removeCache=removeCache, lpsc=local_phase_sampling_conditions))
+
+    def getInterdiffusivity(self, x, T, removeCache=True, phase=None):
+        ph = self.phases[0] if phase is None else phase
+        return _scaled(SurBinary.getInterdiffusivity(self, x, T), _argfactor(self.phases, ph, removeCache=removeCache))
+
+    def getTracerDiffusivity(self, x, T, removeCache=True, phase=None):
+        ph = self.phases[0] if phase is None else phase
+        return _scaled(SurBinary.getTracerDiffusivity(self, x, T), _argfactor(self.phases, ph, removeCache=removeCache))
+
+    def getInterfacialComposition(self, T, gExtra=0, precPhase=None):
+        ph = self.phases[1] if precPhase is None else precPhase
+        return SurBinary.getInterfacialComposition(self, T, gExtra, ph)        # depends on the phase through P[ph]
+
+
+class PassTernary(SurTernary):
+    """ternary backend for the un-trained pass-through: 2-3 precipitate phases, the signatures of
+    MulticomponentThermodynamics"""
+    def __init__(self, nprec=3):
+        SurTernary.__init__(self)
+        self.phases = ['ALPHA'] + ['G1', 'G2', 'G3'][:nprec]
+
+    def getDrivingForce(self, x, T, precPhase=None, removeCache=False, local_phase_sampling_conditions=None):
+        ph = self.phases[1] if precPhase is None else precPhase
+        return _scaled(SurTernary.getDrivingForce(self, x, T), _argfactor(self.phases, ph, removeCache=removeCache, lpsc=local_phase_sampling_conditions))
+
+    def getInterdiffusivity(self, x, T, removeCache=True, phase=None):
+        ph = self.phases[0] if phase is None else phase
+        return _scaled(SurTernary.getInterdiffusivity(self, x, T), _argfactor(self.phases, ph, removeCache=removeCache))
+
+    def getTracerDiffusivity(self, x, T, removeCache=True, phase=None):
+        ph = self.phases[0] if phase is None else phase
+        return _scaled(SurTernary.getTracerDiffusivity(self, x, T), _argfactor(self.phases, ph, removeCache=removeCache))
+
+    def curvatureFactor(self, x, T, precPhase=None, removeCache=False, searchDir=None, computeSearchDir=False):
+        ph = self.phases[1] if precPhase is None else precPhase
+        return _scaled(SurTernary.curvatureFactor(self, x, T), _argfactor(self.phases, ph, removeCache=removeCache, searchDir=searchDir, computeSearchDir=computeSearchDir))
+
+    def getGrowthAndInterfacialComposition(self, x, T, dG, R, gExtra, precPhase=None, removeCache=False, searchDir=None):
+        ph = self.phases[1] if precPhase is None else precPhase
+        return _scaled(SurTernary.getGrowthAndInterfacialComposition(self, x, T, dG, R, gExtra), _argfactor(self.phases, ph, removeCache=removeCache, searchDir=searchDir))
+
+    def impingementFactor(self, x, T, precPhase=None, removeCache=False, searchDir=None):
+        ph = self.phases[1] if precPhase is None else precPhase
+        return _scaled(SurTernary.impingementFactor(self, x, T), _argfactor(self.phases, ph, removeCache=removeCache, searchDir=searchDir))
 
 
 class Rec:
@@ -556,15 +640,16 @@ def make_surrogate(system, backend=None):
 
 
 def train(s, system, q, g):
-    """train quantity q of surrogate s on grid g (dict)"""
+    """train quantity q of surrogate s on grid g (dict; g['phase'] = phase to train for, default phase if absent)"""
+    pk = {} if g.get('phase') is None else ({'phase': g['phase']} if q == 'diffusivity' else {'precPhase': g['phase']})
     if q == 'drivingForce':
-        s.trainDrivingForce(np.array(g['x']), np.array(g['T']) if len(g['T']) > 1 else g['T'][0], logX=g['log'], broadcast=g['broadcast'])
+        s.trainDrivingForce(np.array(g['x']), np.array(g['T']) if len(g['T']) > 1 else g['T'][0], logX=g['log'], broadcast=g['broadcast'], **pk)
     elif q == 'diffusivity':
-        s.trainDiffusivity(np.array(g['x']), np.array(g['T']) if len(g['T']) > 1 else g['T'][0], logX=g['log'], broadcast=g['broadcast'])
+        s.trainDiffusivity(np.array(g['x']), np.array(g['T']) if len(g['T']) > 1 else g['T'][0], logX=g['log'], broadcast=g['broadcast'], **pk)
     elif q == 'interfacial':
-        s.trainInterfacialComposition(np.array(g['T']) if len(g['T']) > 1 else g['T'][0], np.array(g['g']), logY=g['log'], broadcast=g['broadcast'])
+        s.trainInterfacialComposition(np.array(g['T']) if len(g['T']) > 1 else g['T'][0], np.array(g['g']), logY=g['log'], broadcast=g['broadcast'], **pk)
     elif q == 'curvature':
-        s.trainCurvature(np.array(g['x']), np.array(g['T']) if len(g['T']) > 1 else g['T'][0], logX=g['log'], broadcast=g['broadcast'])
+        s.trainCurvature(np.array(g['x']), np.array(g['T']) if len(g['T']) > 1 else g['T'][0], logX=g['log'], broadcast=g['broadcast'], **pk)
     else:
         raise ValueError(q)
 
@@ -579,32 +664,112 @@ def grid_points(system, q, g):
     return [(x, t) for t in T for x in X] if g['broadcast'] else list(zip(X, T))
 
 
+PHASE_PARAM = {'getDrivingForce': 'precPhase', 'getInterdiffusivity': 'phase', 'getTracerDiffusivity': 'phase',
+               'getInterfacialComposition': 'precPhase', 'curvatureFactor': 'precPhase',
+               'getGrowthAndInterfacialComposition': 'precPhase', 'impingementFactor': 'precPhase'}
+
+
+def argeq(a, b):
+    if isinstance(a, dict) or isinstance(b, dict):
+        return isinstance(a, dict) and isinstance(b, dict) and a == b
+    if isinstance(a, (str, bool)) or isinstance(b, (str, bool)) or a is None or b is None:
+        return type(a) == type(b) and a == b
+    return deq(a, b)
+
+
+def argshow(v):
+    if isinstance(v, np.ndarray):
+        return np.array2string(v, precision=6, threshold=6)
+    return repr(v)
+
+
+def by_name(fn, args, kw, drop_self=False):
+    """bind a call to a signature; returns ({parameter name: value} for what was actually passed - *args must be
+    empty, **kwargs flattened -, the signature)"""
+    import inspect
+    sig = inspect.signature(fn)
+    ba = sig.bind(*args, **kw)
+    out = {}
+    for name, v in ba.arguments.items():
+        k = sig.parameters[name].kind
+        if k == inspect.Parameter.VAR_POSITIONAL:
+            if len(v):
+                raise TypeError('unexpected extra positional arguments %r' % (v,))
+        elif k == inspect.Parameter.VAR_KEYWORD:
+            out.update(v)
+        else:
+            out[name] = v
+    if drop_self:
+        out.pop('self', None)
+    return out, sig
+
+
 def untrained_case(c):
-    """un-trained getter: exactly one backend call, same name, result identical to the direct call"""
+    """un-trained getter on a backend with several precipitate phases behind a recording proxy: exactly one backend
+    call, of the same-named method; every argument the backend received equals what the caller passed (parameters
+    the caller left out: the backend's own default; a phase left out or None: the default phase); the value
+    returned is identical to the value of a direct call of the backend with the caller's arguments"""
+    import inspect
     system, meth = c['system'], c['method']
-    inner = SurBinary() if system == 'binary' else SurTernary()
+    nprec = int(c.get('nprec', 2))
+    inner = PassBinary(nprec) if system == 'binary' else PassTernary(nprec)
     rec = Rec(inner)
     s, _ = make_surrogate(system, rec)
     for q, g in c.get('trained_others', []):
         train(s, system, q, g)
     rec.calls.clear()
-    args = [np.array(a) if isinstance(a, list) else a for a in c['args']]
-    kw = dict(c.get('kwargs', {}))
+    conv = lambda a: np.array(a, dtype=float) if isinstance(a, list) else a
+    args = [conv(a) for a in c['args']]
+    kw = {k: conv(v) for k, v in c.get('kwargs', {}).items()}
     site = SITE[meth] + '.' + meth
+    call = '%s(%s)' % (meth, ', '.join([argshow(a) for a in args] + ['%s=%s' % (k, argshow(v)) for k, v in kw.items()]))
+    # what the caller asks for: the surrogate's own parameter names give the positional arguments their meaning
+    want, _ = by_name(getattr(type(s), meth), [s] + args, kw, drop_self=True)
     try:
         got = getattr(s, meth)(*args, **kw)
     except Exception as e:
-        return [('fallthrough_identity', site, 'untrained raises', 'un-trained %s%r raised %s' % (meth, tuple(c['args']), exc_name(e)))]
+        return [('fallthrough_identity', site, 'untrained raises', 'un-trained %s raised %s' % (call, exc_name(e)))]
     calls = list(rec.calls)
-    exp = getattr(inner, meth)(*args, **kw)
-    hits = []
     names = [n for n, _, _ in calls]
     if names != [meth]:
-        hits.append(('fallthrough_identity', site, 'untrained', 'un-trained %s called the thermodynamics method(s) %r, expected exactly one call of %s'
-                     % (meth, names, meth)))
+        return [('fallthrough_identity', site, 'untrained', 'un-trained %s called the thermodynamics method(s) %r, expected exactly one call of %s'
+                 % (call, names, meth))]
+    bfn = getattr(inner, meth)
+    try:
+        recv, bsig = by_name(bfn, calls[0][1], calls[0][2])
+    except TypeError as e:
+        return [('fallthrough_identity', site, 'untrained arguments', 'un-trained %s: the thermodynamics method was called with arguments it cannot bind: %s' % (call, e))]
+    # (a) arguments received vs arguments passed
+    pp = PHASE_PARAM[meth]
+    dflt_phase = inner.phases[0] if pp == 'phase' else inner.phases[1]
+    bad = []
+    for name, prm in bsig.parameters.items():
+        if prm.kind in (inspect.Parameter.VAR_POSITIONAL, inspect.Parameter.VAR_KEYWORD):
+            continue
+        d = None if prm.default is inspect.Parameter.empty else prm.default
+        e, r = want.get(name, d), recv.get(name, d)
+        if name == pp:
+            e = dflt_phase if e is None else e
+            r = dflt_phase if r is None else r
+        if not argeq(e, r):
+            bad.append('%s: caller %s, thermodynamics received %s' % (name, argshow(want[name]) if name in want else '<left out: default %s>' % argshow(e),
+                                                                       argshow(recv[name]) if name in recv else '<nothing: its default %s>' % argshow(r)))
+    for name in want:
+        if name not in bsig.parameters:
+            bad.append('%s: passed by the caller, unknown to the thermodynamics method' % name)
+    # (b) value returned vs value of the direct call with the caller's arguments
+    try:
+        exp = bfn(**{k: v for k, v in want.items() if k in bsig.parameters})
+    except Exception as e:
+        return [('no_internal_error', 'harness/c20.py', 'stub', 'stub backend raised %s for %s' % (exc_name(e), call))]
+    hits = []
+    if bad:
+        hits.append(('fallthrough_identity', site, 'untrained arguments',
+                     'un-trained %s on a system with precipitates %r: %s; it returned %s, the thermodynamics object returns %s for the caller\'s arguments'
+                     % (call, inner.phases[1:], '; '.join(bad), short(got), short(exp))))
     elif not deq(got, exp):
-        hits.append(('fallthrough_identity', site, 'untrained', 'un-trained %s%r returned %s, the thermodynamics object returns %s'
-                     % (meth, tuple(c['args']), short(got), short(exp))))
+        hits.append(('fallthrough_identity', site, 'untrained', 'un-trained %s returned %s, the thermodynamics object returns %s'
+                     % (call, short(got), short(exp))))
     return hits
 
 
@@ -786,28 +951,75 @@ def gen_args(rng, system, meth):
     return [x, T]
 
 
-def gen_untrained(rng, idx):
-    system = str(rng.choice(['binary', 'ternary']))
-    meth = str(rng.choice(GETTERS[system]))
-    c = {'kind': 'untrained', 'system': system, 'method': meth, 'args': gen_args(rng, system, meth), 'kwargs': {}}
+OPTIONAL = {   # optional arguments of the thermodynamics methods (besides the phase), passed by keyword
+    'getDrivingForce': ['removeCache', 'local_phase_sampling_conditions'],
+    'getInterdiffusivity': ['removeCache'], 'getTracerDiffusivity': ['removeCache'],
+    'getInterfacialComposition': [],          # gExtra is handled with the positional arguments
+    'curvatureFactor': ['removeCache', 'searchDir', 'computeSearchDir'],
+    'getGrowthAndInterfacialComposition': ['removeCache', 'searchDir'],
+    'impingementFactor': ['removeCache', 'searchDir'],
+}
+OWN_QUANTITY = {'getDrivingForce': 'drivingForce', 'getInterdiffusivity': 'diffusivity', 'getTracerDiffusivity': 'diffusivity',
+                'getInterfacialComposition': 'interfacial', 'curvatureFactor': 'curvature',
+                'getGrowthAndInterfacialComposition': 'curvature', 'impingementFactor': 'curvature'}
+
+
+def gen_untrained_one(rng, system, meth, nprec, phase, mode):
+    """one un-trained call: `phase` (None = the default one) passed by `mode` in ('omitted', 'positional', 'keyword')"""
+    args = gen_args(rng, system, meth)
+    kw = {}
+    pp = PHASE_PARAM[meth]
+    if meth == 'getInterfacialComposition':
+        gmode = 'positional' if mode == 'positional' else str(rng.choice(['positional', 'keyword', 'omitted']))
+        g = args.pop()
+        if gmode == 'positional':
+            args.append(g)
+        elif gmode == 'keyword':
+            kw['gExtra'] = g
+    if mode == 'positional':
+        args.append(phase)
+    elif mode == 'keyword':
+        kw[pp] = phase
+    for o in OPTIONAL[meth]:
+        if rng.random() < 0.5:
+            if o in ('removeCache', 'computeSearchDir'):
+                kw[o] = bool(rng.random() < 0.5)
+            elif o == 'searchDir':
+                kw[o] = [float(v) for v in rng.uniform(0.1, 1.0, 2)]
+            else:
+                kw[o] = {'points': float(rng.integers(2, 9))}
+    c = {'kind': 'untrained', 'system': system, 'nprec': nprec, 'method': meth, 'args': args, 'kwargs': kw}
     r = rng.random()
-    ph = {'binary': ('B2', 'ALPHA'), 'ternary': ('G1', 'ALPHA')}[system]
     if r < 0.3:
-        key = 'phase' if meth in ('getInterdiffusivity', 'getTracerDiffusivity') else 'precPhase'
-        c['kwargs'][key] = ph[1] if key == 'phase' else ph[0]
-    elif r < 0.45 and meth not in ('getInterfacialComposition',):
-        c['kwargs']['removeCache'] = bool(rng.random() < 0.5)
-    if rng.random() < 0.4:
-        # another quantity is trained: the un-trained one must still pass through
-        own = {'getDrivingForce': 'drivingForce', 'getInterdiffusivity': 'diffusivity', 'getTracerDiffusivity': 'diffusivity',
-               'getInterfacialComposition': 'interfacial'}.get(meth, 'curvature')
-        others = [q for q in (['drivingForce', 'diffusivity', 'interfacial'] if system == 'binary' else ['drivingForce', 'diffusivity', 'curvature']) if q != own]
-        q = str(rng.choice(others))
+        qs = ['drivingForce', 'diffusivity', 'interfacial'] if system == 'binary' else ['drivingForce', 'diffusivity', 'curvature']
+        own = OWN_QUANTITY[meth]
+        dflt = 'ALPHA' if own == 'diffusivity' else {'binary': 'B1', 'ternary': 'G1'}[system]
+        if r < 0.12 and phase is not None and phase != dflt:
+            q = own                    # the same quantity trained, but for ANOTHER phase: this phase must still pass through
+        else:
+            q = str(rng.choice([x for x in qs if x != own]))
         g = gen_grid(rng, system, q)
-        if q == 'interfacial':
-            g['T'] = g['T'][:1] if g['broadcast'] else g['T']        # keep clear of the known broadcast defect here
+        if q == 'interfacial' and g['broadcast']:
+            g['T'] = g['T'][:1]
         c['trained_others'] = [[q, g]]
     return c
+
+
+def gen_untrained(rng, reps):
+    """systematic: every getter x every phase x (phase left out / positional / keyword), `reps` random argument sets each"""
+    out = []
+    k = 0
+    for system in ('binary', 'ternary'):
+        for meth in GETTERS[system]:
+            k += 1
+            for rep in range(reps):
+                nprec = 3 if (k + rep) % 2 == 0 else 2
+                precs = (['B1', 'B2', 'B3'] if system == 'binary' else ['G1', 'G2', 'G3'])[:nprec]
+                cands = (['ALPHA'] + precs) if PHASE_PARAM[meth] == 'phase' else precs
+                combos = [(None, 'omitted'), (None, 'keyword')] + [(ph, m) for ph in cands for m in ('positional', 'keyword')]
+                for ph, m in combos:
+                    out.append(gen_untrained_one(rng, system, meth, nprec, ph, m))
+    return out
 
 
 def gen_trained(rng, idx):
@@ -886,8 +1098,12 @@ def shrinks(c):
         if c['solver'] != 'euler':
             d = dict(c); d['solver'] = 'euler'; d['times'] = [3.0] if k == 'prec' else [6e4]; yield d
     if k == 'untrained':
-        if c.get('trained_others') or c.get('kwargs'):
-            d = dict(c); d.pop('trained_others', None); d['kwargs'] = {}; yield d
+        if c.get('trained_others'):
+            d = dict(c); d.pop('trained_others', None); yield d
+        for key in list(c.get('kwargs', {})):
+            d = dict(c); d['kwargs'] = {a: b for a, b in c['kwargs'].items() if a != key}; yield d
+        if isinstance(c['args'][0], list) and c['args'][0] and isinstance(c['args'][0][0], list):
+            d = dict(c); d['args'] = [c['args'][0][0], c['args'][1][0] if isinstance(c['args'][1], list) else c['args'][1]] + list(c['args'][2:]); yield d
     if k == 'reload':
         for i in range(len(c['train'])):
             if len(c['train']) > 1:
@@ -1057,6 +1273,15 @@ def explore(ctx, cases, py):
                 ctx.hist('steps before save', '0' if r['steps'] == 0 else '1-99' if r['steps'] < 100 else '100-999' if r['steps'] < 1000 else '>=1000')
         elif c['kind'] == 'untrained':
             ctx.hist('untrained getter', c['system'] + '/' + c['method'])
+            pp = PHASE_PARAM[c['method']]
+            npos = {'getInterfacialComposition': 2, 'getGrowthAndInterfacialComposition': 5}.get(c['method'], 2)
+            mode = 'keyword' if pp in c.get('kwargs', {}) else 'positional' if len(c['args']) > npos else 'left out'
+            phv = c['kwargs'].get(pp) if mode == 'keyword' else c['args'][-1] if mode == 'positional' else None
+            ctx.hist('untrained phase argument', '%s/%s' % (mode, 'None' if phv is None else 'first' if phv in ('B1', 'G1', 'ALPHA') else 'other'))
+            ctx.hist('untrained precipitate phases', int(c.get('nprec', 2)))
+            for o in c.get('kwargs', {}):
+                if o != pp:
+                    ctx.hist('untrained optional argument', o)
         elif c['kind'] == 'trained':
             ctx.hist('trained grid', '%s/%s/%s/%s' % (c['system'], c['quantity'], 'broadcast' if c['grid']['broadcast'] else 'pointwise', 'log' if c['grid']['log'] else 'linear'))
         elif c['kind'] == 'reload':
@@ -1098,7 +1323,7 @@ def gen_cases(ctx, quick, budget=1.0):
     cases = []
     cases += [gen_prec(rng, i, quick) for i in range(n(16, 120))]
     cases += [gen_diff(rng, i, quick) for i in range(n(14, 120))]
-    cases += [gen_untrained(rng, i) for i in range(n(70, 600))]
+    cases += gen_untrained(rng, n(2, 12))
     cases += [gen_trained(rng, i) for i in range(n(40, 400))]
     cases += [gen_reload(rng, i) for i in range(n(10, 80))]
     return cases
@@ -1110,8 +1335,8 @@ def run(ctx):
     ctx.cov['rule'] = ('round trips through real .npz files into a freshly constructed model of the same configuration: precipitation on the closed-form '
                        'stub backend (1-3 phases, PSD recording on / off / switched off between solve calls, 1-3 solve calls before saving, Euler and RK4, '
                        'adaptive grid on / off, strength model coupled or not), single-phase diffusion with a stub diffusivity (binary / ternary, recording '
-                       'on / off / toggled, 1-3 solve calls); surrogates on closed-form binary and ternary backends: un-trained getters (all 7 quantities, '
-                       'scalar / array arguments, optional phase / removeCache keywords, other quantities trained or not), trained getters at their training '
+                       'on / off / toggled, 1-3 solve calls); surrogates on closed-form binary and ternary backends: un-trained getters through a recording proxy on backends with 2-3 precipitate phases (systematically: all 7 quantities x every phase x phase left out / positional / keyword; '
+                       'scalar / array arguments; gExtra, removeCache, searchDir, computeSearchDir, local_phase_sampling_conditions by keyword; nothing, another quantity, or the same quantity for another phase trained): value AND received arguments compared, trained getters at their training '
                        'points (linear / log, broadcast / point-wise grids, single-valued axes), JSON reload at random query points; every case counts as '
                        'non-trivial (a solved model / a trained or queried surrogate); distinct by hash of the case parameters')
     # ---- 1. regenerate -------------------------------------------------------------------------
